@@ -55,5 +55,5 @@ Check ==
         /\ \A j \in 0..3 : TFrbFK(T, gs, k, x, j) = TFrb(T, k, x, j)
         /\ TFrbB(T, k, x, 1) = TFrb(T, k, x, 1)
         /\ TFrbFK(T, gs, k, x, TDim(T, k)) = x
-        /\ \A j \in 1..k : TLevelIsFieldB(T, j) = TLevelIsField(T, j) /\ TLevelIsField(T, j)
+        /\ \A j \in 1..k : TLevelIsFieldB(T, j) = TLevelIsField(T, j)
 =============================================================================
